@@ -38,6 +38,25 @@ Section Statements.
     Nat.odd (length l) = true ->
     (result_ok eqb accept l r = true <-> r = trivial_merge eqb accept l).
   Proof. exact (result_ok_complete eqb eqb_spec). Qed.
+
+  (** Simplifying a conflict first never changes whether, or to what, it resolves (the tree merge
+      simplifies before it calls resolve_trivial; C01 and C02 compose). *)
+  Theorem C02_simplify_invariant : forall accept (m : list T),
+    Nat.odd (length m) = true ->
+    trivial_merge eqb accept (simplify eqb m) = trivial_merge eqb accept m.
+  Proof. exact (trivial_merge_simplify eqb eqb_spec). Qed.
+
+  (** SameChange::Accept only resolves more: what resolves under Reject resolves to the same
+      value under Accept. *)
+  Theorem C02_accept_monotone : forall (l : list T) (v : T),
+    Nat.odd (length l) = true ->
+    trivial_merge eqb false l = Some v -> trivial_merge eqb true l = Some v.
+  Proof. exact (trivial_merge_accept_mono eqb eqb_spec). Qed.
+
+  (** The resolved value is one of the conflict's own terms - nothing is invented. *)
+  Theorem C02_result_is_term : forall (l : list T) accept (v : T),
+    Nat.odd (length l) = true -> trivial_merge eqb accept l = Some v -> In v l.
+  Proof. exact (trivial_merge_in eqb eqb_spec). Qed.
 End Statements.
 
 Example C02_nonvacuous :
@@ -49,3 +68,4 @@ Proof. repeat split. Qed.
 
 Print Assumptions C02_spec.
 Print Assumptions C02_den_only.
+Print Assumptions C02_simplify_invariant.
